@@ -43,7 +43,7 @@ def run(tier):
     res.assumptions = list(_e2.ASSUME)
     small, big = configs(tier)
     cfgs = small + big
-    _e2.run_matrix('C07', 'oracle_bound', [(c, 'P', None) for c in small], res, 'mode P, all schedules', cap=400000)
+    _e2.run_matrix('C07', 'oracle_bound', [(c, 'D', None) for c in small], res, 'mode D (DPOR + sleep sets), all schedules', cap=400000)
     bound = 1 if tier == 'quick' else 2
     _e2.run_matrix('C07', 'oracle_bound', [(c, 'B', bound) for c in big], res,
                    f'mode B, all schedules of visible operations with at most {bound} preemptions', cap=150000)
